@@ -1,6 +1,6 @@
 (* C32 — property theorems (statements only; proofs by [exact] of lemmas in Proofs.v). *)
 From Coq Require Import ZArith List Permutation.
-From OMV Require Import Base.Val C32.Model C32.Proofs.
+From OMV Require Import Base.Val C32.Model C32.Proofs C32.ProofsTree.
 Import ListNotations.
 Open Scope Z_scope.
 
@@ -80,3 +80,53 @@ Theorem C32_feed_forward_one_pass :
     forall i, In i declared -> residual cs e i = 0.
 Proof. exact feed_forward_one_pass. Qed.
 Print Assumptions C32_feed_forward_one_pass.
+
+(* Hierarchy.  [good E t]: in every group of the tree the subsystem names are distinct and the order
+   computed for the group is a permutation of its subsystems in which, for every component-level
+   connection of E between two different subsystems, the source's subsystem comes first.  Then the
+   nested depth-first execution order of the components is a permutation of the components in
+   which every connection of E goes forward — for all trees of any depth and width (induction over
+   the tree). *)
+Theorem C32_hier_topological :
+  forall (E : list edge),
+    (forall u v, In (u, v) E -> u <> v) ->
+    forall t : sys, NoDup (leaves t) -> good E t ->
+      Permutation (exec_order t) (leaves t) /\
+      forall u v, In (u, v) E -> In u (leaves t) -> In v (leaves t) ->
+                  (pos u (exec_order t) < pos v (exec_order t))%nat.
+Proof. exact hier_topological. Qed.
+Print Assumptions C32_hier_topological.
+
+(* The per-group premise of [good] follows from the checked SCC list when the group's subsystem
+   graph is acyclic and contains every edge induced by the component-level connections. *)
+Theorem C32_group_good_from_checker :
+  forall (E : list edge) (ch : list sys) (e : list edge) (s : list (list Z)),
+    NoDup (map sid ch) ->
+    valid_scc_list (map sid ch) e s = true ->
+    acyclic e ->
+    (forall ci cj u v, In ci ch -> In cj ch -> sid ci <> sid cj ->
+                       In (u, v) E -> In u (leaves ci) -> In v (leaves cj) -> In (sid ci, sid cj) e) ->
+    let ord := auto_order true (map sid ch) e s in
+    Permutation ord (map sid ch) /\
+    forall ci cj u v, In ci ch -> In cj ch -> sid ci <> sid cj ->
+                      In (u, v) E -> In u (leaves ci) -> In v (leaves cj) ->
+                      (pos (sid ci) ord < pos (sid cj) ord)%nat.
+Proof. exact group_good_from_checker. Qed.
+Print Assumptions C32_group_good_from_checker.
+
+(* One run-once pass over the whole hierarchy zeroes the residual of every affine explicit component,
+   from any initial values. *)
+Theorem C32_hier_one_pass :
+  forall (E : list edge) (t : sys) (cs : list comp),
+    (forall u v, In (u, v) E -> u <> v /\ In u (leaves t) /\ In v (leaves t)) ->
+    NoDup (leaves t) -> good E t ->
+    edges_cover_b cs E = true ->
+    let env := run_pass (comp_fun cs) (exec_order t) (init_env cs) in
+    forall i, In i (leaves t) -> residual cs env i = 0.
+Proof. exact hier_one_pass. Qed.
+Print Assumptions C32_hier_one_pass.
+
+(* the boolean premise that the harness evaluates on every generated acyclic model is sound *)
+Theorem C32_good_b_sound : forall (E : list edge) (t : sys), good_b E t = true -> good E t.
+Proof. exact good_b_sound. Qed.
+Print Assumptions C32_good_b_sound.
